@@ -1,4 +1,4 @@
-import Ledger.Driver.Core
+import Ledger.Driver.CoreH
 
 /-! `ldriver_core`: correspondence driver for the Core area (core-only). -/
-def main : IO Unit := Ledger.Driver.runDriver []
+def main : IO Unit := Ledger.Driver.runDriver Ledger.Driver.coreHandlers
